@@ -49,11 +49,15 @@ fn c14_iter_root() {
     let mut p = small_parts(&[1, EOC, EOC], 0, 100, 2, 64);
     let c = mk_comp(&mut p);
     let mut n = 0;
-    let mut it = c.read_root_storage(); free(&c);
-    while let Some(e) = it.next() {
-        free(&c);
-        let _ = c.is_stream(e.path()); free(&c);
-        n += 1;
+    {
+        // the iterator lives in its own scope: a changed iterator that borrows the file for its whole life
+        // must still compile here (and then meets the assertions below)
+        let mut it = c.read_root_storage(); free(&c);
+        while let Some(e) = it.next() {
+            free(&c);
+            let _ = c.is_stream(e.path()); free(&c);
+            n += 1;
+        }
     }
     assert!(n == 3, "C01: root storage has three children");
     kani::cover!(true, "end");
@@ -70,11 +74,13 @@ fn c14_iter_walk() {
     let mut p = small_parts(&[1, EOC, EOC], 0, 100, 2, 64);
     let c = mk_comp(&mut p);
     let mut n = 0;
-    let mut it = c.walk(); free(&c);
-    while let Some(e) = it.next() {
-        free(&c);
-        let _ = c.exists(e.path()); free(&c);
-        n += 1;
+    {
+        let mut it = c.walk(); free(&c);
+        while let Some(e) = it.next() {
+            free(&c);
+            let _ = c.exists(e.path()); free(&c);
+            n += 1;
+        }
     }
     assert!(n == 4, "C01: walk visits the root and its three children");
     kani::cover!(true, "end");
@@ -90,11 +96,15 @@ fn c14_iter_walk() {
 fn c14_iter_storage() {
     let mut p = small_parts(&[1, EOC, EOC], 0, 100, 2, 64);
     let c = mk_comp(&mut p);
-    let mut it = c.read_storage("/d").unwrap(); free(&c);
-    assert!(it.next().is_none()); free(&c);
-    let mut it = c.walk_storage("/d").unwrap(); free(&c);
-    assert!(it.next().is_some()); free(&c);
-    assert!(it.next().is_none()); free(&c);
+    {
+        let mut it = c.read_storage("/d").unwrap(); free(&c);
+        assert!(it.next().is_none()); free(&c);
+    }
+    {
+        let mut it = c.walk_storage("/d").unwrap(); free(&c);
+        assert!(it.next().is_some()); free(&c);
+        assert!(it.next().is_none()); free(&c);
+    }
     kani::cover!(true, "end");
     std::mem::forget(c);
 }
